@@ -1008,6 +1008,22 @@ class Interp:
                     s2 = o.st.set(recv['bind'], new).event(('call', cal, (old, o.val), e))
                     outs.append(Out('val', UNIT, s2))
                 return outs
+        if cal.endswith('alloc::vec::Vec::<T, A>::insert') and len(e['args']) == 2:
+            # vec.insert(k, x) on a vector whose elements are known, at a literal position
+            recv = hirq.peel_refs(e['recv'])
+            if recv['k'] == 'Path' and recv.get('res') == 'local':
+                res, abn = self.seq(e['args'], st)
+                outs = list(abn)
+                handled = True
+                for (k, x), s1 in res:
+                    old = s1.env.get(recv['bind'], ('unk', 'vec'))
+                    if old[0] == 'vec' and k[0] == 'lit' and isinstance(k[1], int) and 0 <= k[1] <= len(old[1]):
+                        new = ('vec', old[1][:k[1]] + (x,) + old[1][k[1]:])
+                        outs.append(Out('val', UNIT, s1.set(recv['bind'], new).event(('call', cal, (old, k, x), e))))
+                    else:
+                        handled = False
+                if handled:
+                    return outs
         if cal.rsplit('::', 1)[-1] == 'extend' and 'alloc::vec::Vec<' in cal and len(e['args']) == 1 \
                 and hirq.strip_refs(e['args'][0].get('ty') or '').startswith('core::option::Option<'):
             # vec.extend(option): a push when the option is Some, nothing otherwise
@@ -1848,6 +1864,33 @@ def builtin_summary(I, cal, args, node, st):
         return [Out('val', ('enumerate', args[0]), st)]
     if cal == 'core::iter::traits::iterator::Iterator::collect' and args:
         return [Out('val', args[0], st)]
+    if cal == 'core::iter::traits::iterator::Iterator::peekable' and len(args) == 1:
+        return [Out('val', args[0], st)]          # the same cursor; peek / next_if below read it without / with consuming
+    if cal.startswith('core::iter::adapters::peekable::Peekable::<I>::') and name in ('peek', 'peek_mut') and len(args) == 1:
+        n = st.heap.get(('cursor', args[0]), 0)
+        return [Out('val', ('nth', args[0], 'next', n), st)]
+    if cal.startswith('core::iter::adapters::peekable::Peekable::<I>::') and name in ('next_if', 'next_if_eq') and len(args) == 2:
+        # next_if(pred): the next element is consumed and returned exactly when there is one and pred holds for it
+        base = args[0]
+        key = ('cursor', base)
+        n = st.heap.get(key, 0)
+        t = ('nth', base, 'next', n)
+        outs = []
+        for some, s1 in I.decide(('is', t, 'Some'), st):
+            if not some:
+                outs.append(Out('val', ('ctor', 'None', ()), s1)); continue
+            el = ('variant', t, 'Some', 0)
+            tests = I.apply(args[1], [el], node, s1) if name == 'next_if' else [Out('val', bin_term('Eq', el, args[1]), s1)]
+            for o in tests:
+                if o.kind != 'val':
+                    outs.append(o); continue
+                for truth, s3 in I.decide(o.val, o.st):
+                    if truth:
+                        h = dict(s3.heap); h[key] = n + 1
+                        outs.append(Out('val', t, St(s3.env, h, s3.ev, s3.pc, s3.ctr).event(('call', cal, tuple(args), node))))
+                    else:
+                        outs.append(Out('val', ('ctor', 'None', ()), s3))
+        return outs
     if (cal.endswith('alloc::vec::Vec::<T, A>::pop') or cal.endswith(' as core::iter::traits::iterator::Iterator>::next')
             or cal == 'core::iter::traits::iterator::Iterator::next') and args:
         base = args[0]
